@@ -200,9 +200,12 @@ Section Lookup.
       odo c1 <- eval_helper_columns (l_filters lk) lcols lv nv hs degree 1 ch c ;;
       odo z <- nth_error auxl (start + nh - 1) ;;
       odo nz <- nth_error auxn (start + nh - 1) ;;
-      odo t <- col_eval (l_table lk) lv ;;
+      (* table and frequency columns with their next-row part, as the prover evaluates them (Column::eval_table);
+         until the repair recorded in known_findings.txt (fixed: property=C10, lookup.rs) the constraints used
+         Column::eval, the current row only *)
+      odo t <- col_eval_with_next (l_table lk) lv nv ;;
       let twc := t + ch in
-      odo fr <- col_eval (l_freq lk) lv ;;
+      odo fr <- col_eval_with_next (l_freq lk) lv nv ;;
       let y := fold_left (fun acc x => acc + x) hs 0 * twc - fr in
       let c2 := constraint_first_row c1 z in
       let c3 := constraint c2 ((nz - z) * twc - y) in
